@@ -18,6 +18,7 @@ EXPLANATION = (
     " C05.P3 finds the always-visible keys by role: what is removed from the claims map before the marking call and put back after it (constant array, per-key calls, loop or pipeline; in the entry or the assembly helper; the payload map may be a local moved into the field). C05.P5 interprets the continuation test (closure or named helper) over the classes of the remainder."
     " C05.P6: an issuance emits the disclosures it created: all_disclosures is re-initialised by every issuance before it is read or appended to (the field-flow rule of C11.S / C14.S6), so every issued disclosure is referenced by a digest of this payload."
     " C05.P1 child-accounted: every iteration of a builder's walk passes the recursive marker and the claims are iterated without a filtering / skipping / reordering adaptor, so every member and element reaches the payload (visible or as a disclosure)."
+    " C05.P1 visible-container-writes: the container a builder returns is written only by inserts / pushes and by the removal of the reserved `_sd` slot by its name (no retain / computed remove / clear / truncate)."
 )
 ASSUMPTIONS = [
     "serde_json::Map / Vec insert and push place a value exactly once; indexmap preserves insertion order",
